@@ -113,7 +113,7 @@ func runOptFamily(c *runCtx) error {
 				hangErr = fmt.Errorf("case %d: hang: wait", k)
 			}
 		}
-		switch kind := r.intn(13); kind {
+		switch kind := r.intn(14); kind {
 		case 0, 1, 2: // what a finished bar shows
 			name = "final"
 			which := r.intn(5)  // 0 OnComplete(msg) 1 ClearOnComplete 2 OnAbort(msg) 3 ClearOnAbort 4 both messages
@@ -554,6 +554,33 @@ func runOptFamily(c *runCtx) error {
 			if out != want.String() {
 				fail("a container without bars was given %q through Write; after %s the output holds %q", want.String(),
 					[]string{"Wait", "Shutdown", "cancel and Wait"}[ending], out)
+			}
+		case 12: // the last running bar of an auto-refreshing container finishes between two ticks of a long refresh rate: the bar
+			// asks for frames itself until it has been drawn out, and Wait returns without waiting for the ticker
+			name = "earlyrefresh"
+			ending := r.intn(3) // 0 reaches its total 1 SetTotal(-1, true) 2 Abort
+			total := int64(1 + r.intn(50))
+			cases.WriteString(fmt.Sprintf("R %d %d %d\n", k, ending, total))
+			p := mpb.New(mpb.WithOutput(io.Discard), mpb.WithAutoRefresh(), mpb.WithRefreshRate(time.Hour), mpb.WithWidth(40))
+			var b *mpb.Bar
+			if ending == 1 {
+				// a bar of unknown total (SetTotal is ignored once the completion trigger is armed, as it is for a positive total)
+				b = p.AddBar(0)
+			} else {
+				b = p.AddBar(total)
+			}
+			b.IncrInt64(total / 2)
+			switch ending {
+			case 0:
+				b.SetCurrent(total)
+			case 1:
+				b.SetTotal(-1, true)
+			default:
+				b.Abort(r.bool())
+			}
+			if !waitTimeout(p.Wait) {
+				fail("the only bar of an auto-refreshing container (refresh rate one hour) finished (ending %d), Wait has not returned after %v: "+
+					"it is waiting for the ticker", ending, hangTimeout)
 			}
 		default: // WithWaitGroup: Wait first waits for the user's group
 			name = "waitgroup"
